@@ -416,8 +416,8 @@ def line_formatter_rules(chk):
     ok = True
 
     def decide(it, path, term):
-        if term[0] == "cmp" and term[1] == "==" and ("sym", "args") in (term[2], term[3]):
-            return False
+        if term[0] == "cmp" and term[1] == "==" and any(x[0] == "tuple" for x in (term[2], term[3])):
+            return False  # `args == ({},)`: the record carries a real mapping
         return None
 
     loop_paths = {}
@@ -602,7 +602,7 @@ def json_rules(chk):
         def decide(it, path, term, add_time=add_time):
             if term in (("attr", SELF, JS["add_time"]), ("truthy", ("attr", SELF, JS["add_time"]))):
                 return add_time
-            if term[0] == "cmp" and term[1] == "==" and ("sym", "args") in (term[2], term[3]):
+            if term[0] == "cmp" and term[1] == "==" and any(x == ("attr", ("sym", "record"), "args") or x[0] == "sym" for x in (term[2], term[3])) and any(x[0] == "tuple" for x in (term[2], term[3])):
                 return False
             return None
 
@@ -626,7 +626,8 @@ def json_rules(chk):
                     order.append(e[1][2][1])
                 elif e[0] == "call" and e[1][1][0] == "attr" and e[1][1][1] == data and e[1][1][2] == "update":
                     a = e[1][2][0] if e[1][2] else None
-                    argsval = o.path.env.get(("sym", "args"))
+                    argname = [ev[1] for ev in o.path.events if ev[0] == "bind" and ev[2] == ("attr", ("sym", "record"), "args")]
+                    argsval = o.path.env.get(("sym", argname[0] if argname else "args"))
                     order.append("update(args)" if (a is not None and a == argsval) else "update(%s)" % show(a))
             origin = show(data)
             want = (["time"] if add_time else []) + ["message", "update(args)"]
